@@ -527,6 +527,12 @@ func (s *BaseNodeService) reinitDKG(message storage.Message) error {
 		return fmt.Errorf("failed to umarshal request:  %w", err)
 	}
 
+	// the message can only reinitialize the round it is posted for
+	if message.DkgRoundID != req.DKGID {
+		return fmt.Errorf("round id of reinit message (%s) differs from round id in its payload (%s)",
+			message.DkgRoundID, req.DKGID)
+	}
+
 	roundExist, existErr := s.fsmService.IsExist(req.DKGID)
 	if existErr != nil {
 		return existErr
@@ -545,6 +551,12 @@ func (s *BaseNodeService) reinitDKG(message storage.Message) error {
 
 	operations := make([]*types.Operation, 0)
 	for _, msg := range req.Messages {
+		// embedded messages are processed without signature verification,
+		// so they must not touch any round but the one being reinitialized
+		if msg.DkgRoundID != req.DKGID {
+			continue
+		}
+
 		if fsm.Event(msg.Event) == sif.EventSigningStart {
 			break
 		}
